@@ -125,6 +125,29 @@ def main(tier: str) -> int:
             chk.fail("find_pbest_id does not return exactly the max(1, floor(p*n)) fittest, best first",
                      {"vals": vals, "p": p, "out": out}, {"fn": "find_pbest_id"})
 
+    # products p*n that lie a hair below an integer (0.29*100, 15/22*22, ...): the count is the floor, not the nearest integer. Only
+    # points where the double product and the exact product (the double p as the rational it is) have the same floor are used.
+    near = [(100, 0.29), (100, 0.57), (100, 0.58), (22, 15 / 22), (2, 0.9999999999999999), (50, 0.14), (7, 3 / 7 - 2 ** -54)]
+    for _ in range(60 if tier == "quick" else 600):
+        n = rng.randint(2, 120)
+        k = rng.randint(2, n)
+        pp = float(np.nextafter(k / n, 0.0)) if rng.random() < 0.5 else (k - rng.choice([1e-10, 3e-11, 1e-12])) / n
+        near.append((n, pp))
+    for n, pp in near:
+        if not (0 < pp <= 1) or int(pp * n) != Fraction(pp) * n // 1:
+            continue
+        vals = [rng.randint(-50, 50) for _ in range(n)]
+        arr = np.array(vals, dtype=np.float64)
+        out = [int(x) for x in find_pbest_id(arr, np.float64(pp))]
+        pn, pd = Fraction(pp).numerator, Fraction(pp).denominator
+        add({"op": "pbest", "vals": vals, "pn": pn, "pd": pd}, ("pbest", {"vals": vals, "p": pp}, out))
+        cnt = max(1, int(pp * n))
+        chk.case(("pb_near", n, pp))
+        chk.count("pbest_near_integer")
+        if not (len(out) == cnt and len(set(out)) == cnt and [vals[i] for i in out] == sorted(vals, reverse=True)[:cnt]):
+            chk.fail("find_pbest_id does not return exactly the max(1, floor(p*n)) fittest, best first",
+                     {"vals": vals, "p": pp, "out_len": len(out), "floor_p_n": cnt, "out": out}, {"fn": "find_pbest_id", "clause": "near_integer"})
+
     # ---- C: minmax_scale
     for n in range(1, 5):
         for vals in itertools.product((-1, 0, 3), repeat=n):
